@@ -27,7 +27,7 @@ def _build():
     return exes, None
 
 
-def run_search(prop, seed=0, replay_input=None, timeout=150):
+def run_search(prop, seed=0, replay_input=None, timeout=150, known_inputs=()):
     """returns dict: {"found": bool, "input":..., "observed":..., "expected":..., "cases": n, "profile":..} or {"error":..}; None if unavailable"""
     if not os.path.exists(os.path.join(CEX, "Cargo.toml")):
         return None
@@ -35,12 +35,13 @@ def run_search(prop, seed=0, replay_input=None, timeout=150):
     if exes is None:
         return {"error": "cex crate does not build against the working tree: %s" % err}
     total = 0
+    at_known = None
     for exe, (prof, desc) in zip(exes, PROFILES):
         args = ["bash", "-c", "ulimit -v 8000000; exec \"$0\" \"$@\"", exe, prop, str(seed)]
         if replay_input is not None:
             args += ["--replay", replay_input if isinstance(replay_input, str) else json.dumps(replay_input)]
         try:
-            p = subprocess.run(args, capture_output=True, text=True, timeout=timeout)
+            p = subprocess.run(args, capture_output=True, text=True, timeout=timeout, env=dict(os.environ, VERIF_KNOWN_INPUTS="|".join(known_inputs)))
         except subprocess.TimeoutExpired:
             return {"error": "enumeration timed out after %ds in the %s (the real code may not terminate on some enumerated input)" % (timeout, desc)}
         res = None
@@ -55,7 +56,14 @@ def run_search(prop, seed=0, replay_input=None, timeout=150):
         if res.get("found"):
             res["profile"] = prof
             res["cases"] = total
+            if res.get("input") in known_inputs and replay_input is None:
+                # the enumeration of this build profile ended at the recorded input of a known finding: the other profiles still have to run
+                at_known = at_known or res
+                continue
             return res
+    if at_known:
+        at_known["cases"] = total
+        return at_known
     return {"found": False, "cases": total}
 
 
